@@ -5,6 +5,9 @@ package guardiand
 // Correspondence harness for C12, admin layer: the real nodePrivilegedService.FindMissingMessages over a real
 // db.Database - without backfill (`fmm` lines) and with RpcBackfill against fake public-RPC nodes (`bfill` lines: what the
 // nodes are scripted to answer per sequence, what arrived on the processor's inbound channel, what was reported back).
+// After the PRNG-driven cases two written-out ones: a node answering 5xx / 429 / 4xx for the first / a middle / the last / two /
+// every missing sequence of a batch of seven while the others are served or declined, and streams holding a stored VAA that
+// vaa.Unmarshal rejects (empty payload, version 2) as highest / lowest / middle sequence.
 // Lines go to $VERIF_OUT/dbadm.cases (driver family `db`).
 
 import (
@@ -87,7 +90,7 @@ var c12fmmGroups = [][]uint16{
 // c12node is the script both fake public-RPC nodes answer from: path -> what to do. Anything else is a stray request.
 type c12node struct {
 	mu     sync.Mutex
-	script map[string]string // path -> "s:<base64 json body>" | "a404" | "ajson" | "ab64" | "f500" | "f302"
+	script map[string]string // path -> "s:<base64 json body>" | "a404" | "ajson" | "ab64" | "f<status>" (500, 503, 429, 403, ...)
 	stray  int
 	hits   map[string]int
 }
@@ -108,10 +111,13 @@ func (n *c12node) ServeHTTP(w http.ResponseWriter, r *http.Request) {
 		w.Write([]byte("{not json"))
 	case a == "ab64":
 		w.Write([]byte(`{"vaaBytes":"!!!not base64!!!"}`))
-	case a == "f500":
-		http.Error(w, "boom", http.StatusInternalServerError)
-	case a == "f403":
-		http.Error(w, "no", http.StatusForbidden)
+	case strings.HasPrefix(a, "f"):
+		// any status other than 200 / 404: "f500", "f503", "f429", "f403", ...
+		code, err := strconv.Atoi(a[1:])
+		if err != nil {
+			code = http.StatusInternalServerError
+		}
+		http.Error(w, "boom", code)
 	case strings.HasPrefix(a, "s:"):
 		w.Write([]byte(a[2:]))
 	}
@@ -159,7 +165,11 @@ func TestVerifDbAdmin(t *testing.T) {
 	srv1, srv2 := httptest.NewServer(node), httptest.NewServer(node)
 	defer srv1.Close()
 	defer srv2.Close()
-	for c := 0; c < ncases; c++ {
+	// after the PRNG-driven cases: written-out cases (one on an in-process service value, one on a constructor-built service) in
+	// which a backfill node fails (5xx / 429 / 4xx) for the first / a middle / the last / several / every missing sequence of
+	// a batch while the others are served or declined normally, and streams that hold a stored VAA vaa.Unmarshal rejects
+	const nfixed = 2
+	for c := 0; c < ncases+nfixed; c++ {
 		cid := fmt.Sprintf("adm%d", c+1)
 		d, err := db.Open(t.TempDir())
 		if err != nil {
@@ -256,7 +266,9 @@ func TestVerifDbAdmin(t *testing.T) {
 		}
 		// FindMissingMessages with RpcBackfill: ask without backfill first (that is the list of ids the nodes will be asked for),
 		// script an answer per id, call, then collect what reached the inbound channel
-		bfill := func(ec uint32, ad vaa.Address, tc uint32) {
+		// plan (may be nil): what the nodes answer for the i-th of n missing ids - "" = PRNG's choice, "s" = the VAA,
+		// "a404" / "ajson" = declined, "f<status>" = that HTTP status
+		bfillP := func(ec uint32, ad vaa.Address, tc uint32, plan func(i, n int) string) {
 			as := hex.EncodeToString(ad[:])
 			pre, err := fmmCall(context.Background(), &nodev1.FindMissingMessagesRequest{EmitterChain: ec, TargetChain: tc, EmitterAddress: as})
 			if err != nil {
@@ -266,13 +278,17 @@ func TestVerifDbAdmin(t *testing.T) {
 			node.script, node.hits, node.stray = map[string]string{}, map[string]int{}, 0
 			var parts []string
 			failedOne := false
-			for _, id := range pre.MissingMessages {
+			for idx, id := range pre.MissingMessages {
 				f := strings.Split(id, "/")
 				seq := f[3]
 				path := fmt.Sprintf("/v1/signed_vaa/%d/%s/%d/%s", uint16(ec), as, uint16(tc), seq)
 				k := r.Intn(12)
+				forced := ""
+				if plan != nil {
+					forced = plan(idx, len(pre.MissingMessages))
+				}
 				switch {
-				case k < 5:
+				case forced == "s" || (forced == "" && k < 5):
 					// a VAA for exactly this id (unsigned bytes are fine here: verification is the processor's business)
 					sq, _ := strconv.ParseUint(seq, 10, 64)
 					v := &vaa.VAA{Version: 1, EmitterChain: vaa.ChainID(ec), EmitterAddress: ad, TargetChain: vaa.ChainID(tc), Sequence: sq, Payload: bytesN(1 + r.Intn(30))}
@@ -295,23 +311,26 @@ func TestVerifDbAdmin(t *testing.T) {
 					b, _ := v.Marshal()
 					node.script[path] = "s:" + fmt.Sprintf(`{"vaaBytes":"%s"}`, base64.StdEncoding.EncodeToString(b))
 					parts = append(parts, seq+":s:"+c12hex(b))
-				case k == 5:
+				case forced == "" && k == 5:
 					// served, but arbitrary bytes (another message, garbage): still only forwarded
 					b := bytesN(r.Intn(80))
 					node.script[path] = "s:" + fmt.Sprintf(`{"vaaBytes":"%s"}`, base64.StdEncoding.EncodeToString(b))
 					parts = append(parts, seq+":s:"+c12hex(b))
-				case k == 6:
+				case forced == "" && k == 6:
 					node.script[path] = `s:{"somethingElse":1}` // no vaaBytes field: decodes to an empty byte string
 					parts = append(parts, seq+":s:-")
-				case k == 7:
+				case forced == "ajson" || (forced == "" && k == 7):
 					node.script[path] = "ajson"
 					parts = append(parts, seq+":a")
-				case k == 8:
+				case forced == "" && k == 8:
 					node.script[path] = "ab64"
 					parts = append(parts, seq+":a")
-				case k == 9 && !failedOne && r.Intn(3) == 0:
+				case strings.HasPrefix(forced, "f"):
+					node.script[path] = forced
+					parts = append(parts, seq+":f")
+				case forced == "" && k == 9 && !failedOne && r.Intn(3) == 0:
 					failedOne = true
-					node.script[path] = []string{"f500", "f403"}[r.Intn(2)]
+					node.script[path] = [][]string{{"f500", "f503", "f429"}, {"f403", "f502", "f400"}}[r.Intn(2)][idx%3]
 					parts = append(parts, seq+":f")
 				default:
 					node.script[path] = "a404"
@@ -373,6 +392,106 @@ func TestVerifDbAdmin(t *testing.T) {
 			fmt.Fprintln(w, line)
 			// the admin service itself must not have written the store: the plain report is what it was before
 			fmm(ec, as, tc)
+		}
+		bfill := func(ec uint32, ad vaa.Address, tc uint32) { bfillP(ec, ad, tc, nil) }
+		if c >= ncases {
+			mk := func(ec uint16, ad vaa.Address, tc uint16, seq uint64, version uint8, plen int) {
+				v := &vaa.VAA{Version: version, GuardianSetIndex: 1, EmitterChain: vaa.ChainID(ec), EmitterAddress: ad, TargetChain: vaa.ChainID(tc), Sequence: seq,
+					Timestamp: time.Unix(int64(r.Uint32()), 0), Nonce: r.Uint32(), Payload: bytesN(plen)}
+				sg := &vaa.Signature{Index: 0}
+				copy(sg.Signature[:], bytesN(65))
+				v.Signatures = append(v.Signatures, sg)
+				res := "ok"
+				if err := d.StoreSignedVAA(v); err != nil {
+					res = "err"
+				}
+				val, _ := v.Marshal()
+				fmt.Fprintf(w, "put %s v=%s res=%s key=%s val=%s\n", cid, c12canon(v), res, string(db.VaaIDFromVAA(v).Bytes()), c12hex(val))
+			}
+			// (1) a stream with seven missing sequences (0,2,3,5,6,7,8) next to a look-alike stream; a node failure at every position
+			for _, sq := range []uint64{1, 4, 9} {
+				mk(ecs[0], a, tcs[0], sq, 1, 1+r.Intn(20))
+			}
+			for _, sq := range []uint64{0, 2} {
+				mk(ecs[0], a, tcs[1], sq, 1, 1+r.Intn(20))
+			}
+			fmm(uint32(ecs[0]), hex.EncodeToString(a[:]), uint32(tcs[0]))
+			others := func(i int) string { return []string{"s", "a404", "s", "ajson"}[i%4] }
+			for _, plan := range []func(i, n int) string{
+				func(i, n int) string { // the first one
+					if i == 0 {
+						return "f500"
+					}
+					return others(i)
+				},
+				func(i, n int) string { // one in the middle
+					if i == n/2 {
+						return "f503"
+					}
+					return others(i)
+				},
+				func(i, n int) string { // the last one
+					if i == n-1 {
+						return "f429"
+					}
+					return others(i)
+				},
+				func(i, n int) string { // two of them
+					if i == 1 {
+						return "f403"
+					}
+					if i == n-2 {
+						return "f502"
+					}
+					return others(i + 1)
+				},
+				func(i, n int) string { return []string{"f500", "f503", "f429", "f403", "f400", "f401", "f418"}[i%7] }, // every one
+				func(i, n int) string { // everything served but one
+					if i == 1+r.Intn(2) {
+						return "f400"
+					}
+					return "s"
+				},
+				func(i, n int) string { // everything declined but one failure
+					if i == n-2 {
+						return "f500"
+					}
+					return "a404"
+				},
+				func(i, n int) string { return others(i) }, // no failure at all
+			} {
+				bfillP(uint32(ecs[0]), a, uint32(tcs[0]), plan)
+			}
+			// (2) streams holding a stored VAA that vaa.Unmarshal rejects (empty payload: Marshal writes what Unmarshal refuses; a
+			// version other than 1) as their highest / lowest / a middle sequence: failing the call is fine, a wrong report is not
+			mk(ecs[1], a, tcs[0], 0, 1, 5)
+			mk(ecs[1], a, tcs[0], 2, 1, 5)
+			mk(ecs[1], a, tcs[0], 5, 1, 0) // highest: empty payload
+			mk(ecs[1], z, tcs[0], 0, 1, 0) // lowest: empty payload
+			mk(ecs[1], z, tcs[0], 3, 1, 7)
+			mk(ecs[1], a, tcs[1], 1, 1, 3)
+			mk(ecs[1], a, tcs[1], 2, 1, 0) // middle: empty payload
+			mk(ecs[1], a, tcs[1], 4, 1, 3)
+			mk(ecs[1], z, tcs[1], 0, 1, 9)
+			mk(ecs[1], z, tcs[1], 3, 2, 9) // highest: version 2
+			for _, ad := range addrs {
+				for _, tc := range tcs[:2] {
+					fmm(uint32(ecs[1]), hex.EncodeToString(ad[:]), uint32(tc))
+					bfillP(uint32(ecs[1]), ad, uint32(tc), func(i, n int) string { return others(i) })
+				}
+			}
+			// overwritten by a VAA that decodes: the stream is an ordinary one again
+			mk(ecs[1], a, tcs[0], 5, 1, 4)
+			fmm(uint32(ecs[1]), hex.EncodeToString(a[:]), uint32(tcs[0]))
+			bfillP(uint32(ecs[1]), a, uint32(tcs[0]), func(i, n int) string {
+				if i == n-1 {
+					return "f503"
+				}
+				return others(i)
+			})
+			stopSvc()
+			d.Close()
+			continue
 		}
 		query := func() {
 			ad := addrs[r.Intn(len(addrs))]
